@@ -80,7 +80,9 @@ fn both_cases(names: &[&str]) -> Vec<char> {
 }
 
 /// multi-byte characters whose lower-case form contains no ASCII letter (so "ignoring case" is unambiguous)
-pub const WIDE: [char; 8] = ['é', 'Ä', 'ß', 'σ', 'Σ', '→', '𝒳', 'ǅ'];
+/// `ı` (dotless i) is its own lower-case form and its case folding, only its *upper*-case form is the ASCII `I`: a string
+/// with `ı` in the place of an `i` never equals the name ignoring case (seed C13-l canonicalised by upper-casing)
+pub const WIDE: [char; 9] = ['é', 'Ä', 'ß', 'σ', 'Σ', '→', '𝒳', 'ǅ', 'ı'];
 
 pub fn enum_strings(names: &[&str], seed: u64) -> (Vec<String>, usize) {
     let mut out: Vec<String> = vec![String::new()];
@@ -608,7 +610,7 @@ fn classify(c: &GenCase, r: &CaseResult, f: &Finding) -> Option<String> {
     None
 }
 
-const RULE: &str = "field-less enums (0..6 variants, optionally with const parameters / explicit discriminants / a repr hint; names from 25 words (3 with non-ASCII letters É Ä Ø Ü) in 4 case patterns, groups differing only in case, raw identifiers incl. keywords, names with digits/underscores, raw enum name, `V()`/`V {}` variants) and newtypes (tuple/named/raw field, 8 generic forms incl. a field type wrapping the parameter, a defaulted parameter, a lifetime parameter) over i32,u8,i64,u128,f64,f32,bool,char,String,IpAddr,SocketAddr,NonZeroU8,PathBuf and a custom type with a custom error echoing its input. Enum strings, generated inside the program: exhaustively all strings up to length L<=4 over the letters of each name in both cases plus `_ - space #` (L = largest with <=6000 strings; same over the letters of all names), all 2^min(len,8) case patterns of every name (also behind r#/R#), all one-edit neighbours over that alphabet and 8 multi-byte characters, prefixes, suffixes, concatenations, padded names, 500 seeded random strings <=24 chars; oracle: reference implementation of the documented rule over the unraw names, Err must be derive_more::FromStrError (type-checked) whose Display mentions the enum's name; every own name must parse back. Newtype strings: 64 base strings + per-type extras, each padded 8 ways, 800 seeded random strings; oracle: s.parse::<Inner>().map(N) equal incl. the error value (type identity checked by the compiler). Non-trivial = enum with a case-collision group or a raw identifier (strings within one edit of every name are always included), newtype whose inner type can fail; distinct by program text";
+const RULE: &str = "field-less enums (0..6 variants, optionally with const parameters / explicit discriminants / a repr hint; names from 25 words (3 with non-ASCII letters É Ä Ø Ü) in 4 case patterns, groups differing only in case, raw identifiers incl. keywords, names with digits/underscores, raw enum name, `V()`/`V {}` variants) and newtypes (tuple/named/raw field, 8 generic forms incl. a field type wrapping the parameter, a defaulted parameter, a lifetime parameter) over i32,u8,i64,u128,f64,f32,bool,char,String,IpAddr,SocketAddr,NonZeroU8,PathBuf and a custom type with a custom error echoing its input. Enum strings, generated inside the program: exhaustively all strings up to length L<=4 over the letters of each name in both cases plus `_ - space #` (L = largest with <=6000 strings; same over the letters of all names), all 2^min(len,8) case patterns of every name (also behind r#/R#), all one-edit neighbours over that alphabet and 9 multi-byte characters (incl. dotless `ı`, whose upper-case form is ASCII), prefixes, suffixes, concatenations, padded names, 500 seeded random strings <=24 chars; oracle: reference implementation of the documented rule over the unraw names, Err must be derive_more::FromStrError (type-checked) whose Display mentions the enum's name; every own name must parse back. Newtype strings: 64 base strings + per-type extras, each padded 8 ways, 800 seeded random strings; oracle: s.parse::<Inner>().map(N) equal incl. the error value (type identity checked by the compiler). Non-trivial = enum with a case-collision group or a raw identifier (strings within one edit of every name are always included), newtype whose inner type can fail; distinct by program text";
 
 pub fn prop() -> DiceProp {
     DiceProp {
